@@ -14,7 +14,7 @@ CLAIMS = {
          '[-16384,16383] against the sixteenth-position table, and the sum of exactly mv[0..3]; C MVD_TABLE (folded from const MIR) against the 64 code words of '
          'Table 14, HalfPel::from = floor(2x); D the three candidates selected in each of the 4 x 8 (block index, border class) cases incl. the neighbour block '
          'indices; E median_of over all 13 weak orderings, component-wise for vectors; F zero candidates from intra / not-coded macroblocks (the vector array is zeroed inside the macroblock loop before it is written and recorded); M mv_decode pairs predictor.x with differential.x and predictor.y with differential.y, the MotionVector conversions and addition keep the component order, '
-         'and vector k of a macroblock is mv_decode(picture, options, predict_candidate(.., k), MVD_k) (vectors 2..4 copies of vector 1 without four vectors); W the call sites: every predict_candidate gets predictor_vectors (whole, or from the last group-of-blocks header), the vector array of this macroblock and the macroblocks-per-line term gather gets, every mv_decode the picture being decoded and the options in force; MB which bits are the differentials: '
+         'and vector k of a macroblock is mv_decode(picture, options, predict_candidate(.., k), MVD_k) (vectors 2..4 copies of vector 1 without four vectors); W the call sites: every predict_candidate gets predictor_vectors (whole, or from the last group-of-blocks header), the vector array of this macroblock and the macroblocks-per-line term gather gets, every mv_decode the picture being decoded and the options in force, and predict_candidate(.., k) runs after vectors 1..k-1 of the macroblock have been stored; MB which bits are the differentials: '
          'decode_motion_vector reads x then y with MVD_TABLE (UMV code only with PLUSPTYPE), decode_macroblock reads MVD for the inter types and MVD2-4 for the four-vector types of Table 9 (predicates folded over all types).',
     technique='if-conversion + canonical forms + decision-table comparison; constant folding over finite domains; const-table folding', ref='6/C12'),
  'C11': dict(
@@ -48,7 +48,7 @@ CLAIMS = {
          'deblock::deblock - 169 obligations: every Assert / panicking call in the 15 bodies is discharged by the interval reading (split_at_mut chains via '
          'symbolic multiples of width, chunk lengths, slice-length contracts, i16 kernel arithmetic under sample/strength ranges) or sits in the reviewed-safe '
          'table tied to DB1 (horizontal loop guard `edge_y + 2 <= len/width` and split chain; found D11: `height - 2` underflow, fixed) and DB2 (vertical pass '
-         'under width >= 10, 8-sample chunk octets, columns 4..7); all 9 loops classified; QUANT_TO_STRENGTH folded from const MIR equals Table J.2 for all 31 quantizers.',
+         'under width >= 10, 8-sample chunk octets, columns 4..7); the same inventory over the MIR built with debug assertions on (the strength assertions are implied by the 1..=12 contract through the interval reading of RangeInclusive::contains; two more assertions are reviewed sites); all 9 loops classified; QUANT_TO_STRENGTH folded from const MIR equals Table J.2 for all 31 quantizers.',
     technique='abstract interpretation over MIR with checked contracts + structural mechanism rules; const-table folding', ref='6/C16'),
  'C01': dict(
     text='Static, all byte strings x both option bits x all histories (by induction over one call with field contracts): inventory of every MIR Assert '
@@ -63,7 +63,7 @@ CLAIMS = {
  'C14': dict(
     text='Static, all operation histories: decides the EFFECT DISCIPLINE of the bit reader, not the delivered bit values. A: bits_read is assigned only in '
          'skip_bits (dominated by the success of ensure_bits(n), adding exactly n), rollback and commit; buffer only grows in buffer_bytes and shrinks in commit; '
-         'peek_bits/peek_signed_bits have bits_read outside their mod set. B/T4: look-ahead and transactions restore the checkpoint on exactly the right paths. '
+         'peek_bits/peek_signed_bits have bits_read outside their mod set. B/T4: look-ahead and transactions restore the checkpoint on exactly the right paths; C05.T5: no wrapper commits or drops buffered bytes, so nested wrappers keep the outer checkpoint; C05.T6: a byte enters the buffer only on the success edge of read_exact into a local byte (a failed fill leaves nothing behind) valid. U: read_umv decodes Table D.3 (the four pair arms and the start bit). '
          'C: read_bits/read_signed_bits are peek(n) then skip(n) with one n. E: realignment_bits tabulated over 0..4095, needed_bytes_for_bits = div_ceil(sat_sub(n, sat_sub(8 len, pos)), 8), ensure_bits, commit (drain pos/8 bytes, keep pos mod 8: tabulated, drain first), '
          'rollback guard (tabulated on a grid) and two\'s-complement sign extension. F: start-code scan (17-bit window == 1, one bit per step, nearest first, bounded by realignment_bits). '
          'G: VLC walk consumes one bit per step and all 6 tables are acyclic/in range/fully reachable (folded from const MIR). H: MSB-first assembly in peek_bits - the loop\'s per-iteration transfer function '
@@ -77,7 +77,7 @@ CLAIMS = {
          'Sorenson mode (is_sorenson() = decoder_options.contains(SORENSON_SPARK_BITSTREAM)); T7/T4 a failed macroblock or block parse consumes nothing; CM exactly one commit(), after the loop, on every Ok path, with no '
          'reader movement between loop exit and commit; and what commit() and read_bits() do to the position (C14 E: commit = drain(0..pos/8); pos %= 8, C14 C: read = peek + skip) '
          're-run here. PS decode_picture skips 17 + the stuffing count recognize_start_code reports; MC mb_per_line and mb_height are ceil(dim/16) for every u16 dimension (tabulated); C06 (whole) every header field with its width and presence condition; C14 A, G, H, W the reads deliver the bits they consume; EK is_eof_error is true exactly for an I/O error of kind UnexpectedEof (the only source condition that ends a picture early and succeeds; the discriminant named through the toolchain library source); MB / C12.C the macroblock and block layer consume exactly the bits of their syntax elements (VLC tables against Tables 7, 8, 13, 14, 16; Table 9 predicates; decision tables of decode_macroblock / decode_dquant / decode_motion_vector / decode_block). '
-         'Hence on success the position is the end of the last macroblock and padding is never read.',
+         'C02.D decode_macroblock is called once per iteration with the reader, the header of the picture being decoded and the options in force for it. Hence on success the position is the end of the last macroblock and padding is never read.',
     technique='loop/dominance/control-dependence rules with structural expression matching over MIR; mod/ref effects', ref='6/C15'),
  'C04': dict(
     text='Static, all histories by induction over one call: the state-update discipline of H263State is decided on MIR. R1 accessor guard/key '
@@ -100,12 +100,12 @@ CLAIMS = {
  'C02': dict(
     text='PARTIAL BY DESIGN: sample-exact equality of the f32 row/column IDCT pipeline with the ideal transform (and hence the end-to-end pixel statement) is NOT decided - no '
          'static argument in reach. Decided are the structural conditions of the mechanism list, each necessary for the reconstruction: Z DEZIGZAG_MAPPING (folded const) = the '
-         'zig-zag scan, a bijection; D the macroblock body: block k of macroblock n is decoded with CBP entry k and dequantised into its plane\'s level array at '
+         'zig-zag scan, a bijection; D the macroblock body: decode_macroblock is given the reader, the header of this picture and the options in force for it; block k of macroblock n is decoded with CBP entry k and dequantised into its plane\'s level array at '
          'origin + (8(k&1), 8(k>>1)) (chroma origin/2), origin = ((n mod mbpl)16, (n div mbpl)16), mbpl = ceil(w/16) tabulated over all u16 widths, with the blocks-per-line '
          'idct_channel later uses with that array, that plane\'s samples and row length; level arrays 4 mbpl mbh / mbpl mbh; inverse_rle\'s block index; C15.M7 the macroblock loop ends when the number of decoded macroblocks reaches the count (stuffing takes no turn); H quantizer tracking '
          '(clamp(q + dquant, 1, 31) once per coded macroblock before its six blocks; no other in-loop definition than GQUANT of a parsed group-of-blocks header); decode_block is told the decoder options, the header of the picture being decoded and this macroblock\'s type; and re-run on this tree: dequantisation form, INTRADC mapping and the zig-zag cursor (C11 A, C, P), the IDCT '
          'clauses (C10 A, B, C, E); '
-         'C06 (whole) the picture header is parsed as the standard lays it out; MB the macroblock / block layer syntax: the VLC tables TCOEF, MCBPC (I-pictures) and CBPY folded from const MIR and compared as code word -> event maps with Tables 16, 7 and 13 of H.263, the Table 9 type predicates folded over all six types, and the decision tables of decode_macroblock, decode_dquant and decode_block (consuming reads with table / width, presence condition and order; every field of the result; the coefficient appended per event; LAST ending the loop; Sorenson v1 escape widths) compared as Boolean functions with the syntax of 5.3 / 5.4; Plane allocation is C13 P.',
+         'C06 (whole) the picture header is parsed as the standard lays it out; C13 (whole) plane allocation from the signalled size; MB the macroblock / block layer syntax: the VLC tables TCOEF, MCBPC (I-pictures) and CBPY folded from const MIR and compared as code word -> event maps with Tables 16, 7 and 13 of H.263, the Table 9 type predicates folded over all six types, and the decision tables of decode_macroblock, decode_dquant and decode_block (consuming reads with table / width, presence condition and order; every field of the result; the coefficient appended per event; LAST ending the loop; Sorenson v1 escape widths) compared as Boolean functions with the syntax of 5.3 / 5.4; Plane allocation is C13 P.',
     technique='const-table folding; call-site agreement over loop-index-normalised def-use terms (polynomial normal form, closed forms tabulated over the full u16 domain with Rust integer semantics); dominance for update-before-use; decision-table extraction + semantic DNF comparison for the macroblock / block syntax', ref='6/C02'),
  'C03': dict(
     text='PARTIAL BY DESIGN: end-to-end equality of decoded P pictures with the H.263 reconstruction over all reference pictures is NOT decided statically. Decided are the '
@@ -114,7 +114,7 @@ CLAIMS = {
          'rounding +2 div 4) with exactly their selecting conditions, source = pos + (dx, dy) + (i, j), target cropping, and the 8-sample fast path only under the guard that '
          'excludes clamping; G the six gather_block call sites (vector k at block offset k, chroma vector = average_sum_of_mvs of the four, Cb<-Cb, Cr<-Cr, row lengths of the '
          'plane read, only for inter macroblocks); N every use of the reference goes through ok_or(..)?; U not-coded macroblock = Inter + zero vectors + no residual, early end '
-         'filled with Inter / zero vectors, gather after the macroblock loop and before the IDCT; UC a not-coded macroblock is an error exactly in I pictures among I / P / disposable P; and, re-run on this tree: vector reconstruction, chroma rounding, candidate '
+         'filled with Inter / zero vectors (each list filled whenever it is short), gather after the macroblock loop and before the IDCT; UC a not-coded macroblock is an error exactly in I pictures among I / P / disposable P; and, re-run on this tree: vector reconstruction, chroma rounding, candidate '
          'table, median, zero neighbours, mv_decode pairing and call-site wiring (C12 A, B, D, E, F, M, W) and the residual-add form of every IDCT arm (C10 C), the basis table, 1-D transform and sparse-shape classification (C10 A, B, E), dequantisation and zig-zag cursor (C11 A, P), the decode_block / inverse_rle / idct_channel call-site agreement and quantizer tracking (C02 D, H), the picture header tables (C06, whole); MB the macroblock / block layer syntax of an inter macroblock: COD, MCBPC against Table 8, '
          'CBPY against Table 13 and complemented for inter types, DQUANT / MVD / MVD2-4 presence by the Table 9 predicates (folded over all types), MVD x then y, TCOEF against Table 16 and the escape forms, as decision tables compared with the syntax of 5.3 / 5.4.',
     technique='loop-index-normalised def-use terms vs written-out forms; path conditions (bit-slice DNF) for form selection; folding over finite domains; control-dependence guards; dominance / reachability for order', ref='6/C03'),
@@ -127,7 +127,7 @@ CLAIMS = {
          'picture-type codes, CPFMT/EPAR/CPCFC/ETR/UUI/ELNUM/RPSMF/TRPI/BCI/TRB/DBQUANT fields, Sorenson size and type codes, the PEI loop shape (L), which read '
          'feeds which Picture field (found D8 PTYPE bit-9 polarity and D9 9-bit PHI: fixed). I: the inherited option sets; B: flag constants disjoint; '
          'H: DecodedPicture stores the parsed header and the format in force unmodified, sizes its planes from it, nobody else writes them; S: standard format sizes, a custom format its own indications, and no size exactly for Reserved or a zero dimension. '
-         'G: the sub-parsers that take more than the reader are handed what the syntax ties them to (decode_trb: custom clock present; decode_elnum_rlnum: this PLUSPTYPE\'s followers; decode_plusptype: decoder options and the previous picture\'s options). RPRP is present exactly in RPR mode or when a previous picture exists whose format differs (|p| p.format != format checked). Not decided: which of the two SSS bits is RECTANGULAR_SLICES; that read_bits returns MSB-first integers is C04/C05/C14 territory.',
+         'G: the sub-parsers that take more than the reader are handed what the syntax ties them to (decode_trb: custom clock present; decode_elnum_rlnum: this PLUSPTYPE\'s followers; decode_plusptype: decoder options and the previous picture\'s options). C04 R1/R2/R7: the picture get_last_picture() reports after a successful call is the one just built from that header, and the clean-up runs after the updates so it survives (disposable pictures too). RPRP is present exactly in RPR mode or when a previous picture exists whose format differs (|p| p.format != format checked). Not decided: which of the two SSS bits is RECTANGULAR_SLICES; that read_bits returns MSB-first integers is C04/C05/C14 territory.',
     technique='decision-table extraction from MIR (path conditions in a bit-slice domain, reaching definitions, set-insertion model of |=) + semantic DNF comparison with a written-out specification table; who-may-write effect rule; const folding', ref='6/C06'),
  'C10': dict(
     text='PARTIAL BY DESIGN: the Annex A error statistics (peak error 1, mean-square and mean error bounds over 60 000 random blocks) quantify over f32 rounding and are '
@@ -142,7 +142,7 @@ CLAIMS = {
          'it is NOT decided. Decided, for every width and height at once, is the pairing: K the kernel takes ([u8;4],[u8;2],[u8;2]) -> [u8;16] and lane l converts Y[l] with '
          'Cb[l/2], Cr[l/2] (C07\'s canonical-form rule); M in the whole-group path call k of row r receives bytes 4k.. of luma row r, bytes 2k.. of row r/2 of each chroma '
          'plane and writes bytes 16k.. of output row r (one common group index, row slices r*w, (r/2)*ceil(w/2), r*4w); R the remainder path (iff w mod 4 != 0) gathers '
-         'y[x mod 4] = row[x], c[(x mod 4)/2] = crow[x/2] over the last w mod 4 columns and copies bytes 4(w - w mod 4)..4w from the kernel result at i mod 16; so pixel '
+         'y[x mod 4] = row[x], c[(x mod 4)/2] = crow[x/2] over the last w mod 4 columns and copies bytes 4(w - w mod 4)..4w from the kernel result at i mod 16; L every iteration of the row loop and of every loop nested in it runs its whole body (one back edge, left only when its iterator is exhausted) and the output buffer goes to nothing but the slicing calls of the two paths; so pixel '
          '(x, y) is the conversion of luma (x, y) with chroma (x/2, y/2), replicated, never interpolated. Output length 4*len(y) and the empty shortcut are rule Q of C13.',
     technique='loop-index-normalised def-use terms (polynomial normal form) compared with written-out slice/index forms; kernel canonical form from C07; control-dependence guard of the remainder path', ref='6/C08'),
  'C13': dict(
@@ -150,16 +150,16 @@ CLAIMS = {
          'ceil(w/2.0) is tabulated exactly over the whole u16 domain and equals div_ceil(w, 2); chroma_samples_per_row = cw; G the nine accessors return exactly those '
          'fields as slices; R the plane vectors are private and the only use of &mut Vec in the module is deref_mut (a slice cannot change length); Q yuv420_to_rgba cuts chroma '
          'rows at (row/2)*CW with CW a function equal to ceil(width/2) on the whole domain, loops over len(y)/width rows, returns vec![0; 4*len(y)] (exactly width*height pixels), '
-         'empty shortcut before any division; C10.C every idct_channel arm writes only inside the plane (cropped extents, the transposed dense arm cropped the right way round); C04 R1/R2/R7 after a successful call get_last_picture() returns the picture just decoded (accessor key, last_picture := its key, inserted under it, clean-up after the updates); C06.S every format that has a size has width, height >= 1; J2/S the strength table has 32 entries = Table J.2 with values 1..12 for quantizers 1..31 and Picture.quantizer is a 5-bit read. '
+         'empty shortcut before any division; C10.C every idct_channel arm writes only inside the plane (cropped extents, the transposed dense arm cropped the right way round); C04 R1/R2/R7 after a successful call get_last_picture() returns the picture just decoded (accessor key, last_picture := its key, inserted under it, clean-up after the updates); C06 (whole, incl. S every format that has a size has width, height >= 1): the size the planes are built from is the size the header signals, each indication read into its own field; J2/S the strength table has 32 entries = Table J.2 with values 1..12 for quantizers 1..31 and Picture.quantizer is a 5-bit read. '
          'deblock() accepting every such plane: C16\'s mechanism rules, panic inventory and termination re-run here (C16.*). NOT decided: panic-freedom of the slice arithmetic inside yuv420_to_rgba (relational; see C08).',
     technique='closed-form agreement between producer and consumer (terms tabulated over the full finite domain); visibility / who-may-resize rule; const-table folding', ref='6/C13'),
  'C17': dict(
     text='Static, all executions: no shared mutable state and no nondeterminism source exists in the three crates. S1 every static immutable+Freeze '
          '(lazy_static cells: pure constant initialiser), S2 zero unsafe/extern (HIR walk), S3 interprocedural mod/ref summaries show no static is written, '
          'S4 denylist over every external call site (HashMap: keyed access only; time/env/rand/thread-id/atomics/cells/raw memory/ptr-to-int), '
-         'S5 transitive field walk: per-instance types own their data; C05.T6 the byte source is consumed only through read_exact into a 1-byte buffer whose byte is always kept, so the result cannot depend on how '
-         'a Read implementation splits the same byte sequence; C15.EK only end of data (io::ErrorKind::UnexpectedEof) ends a picture early - any other transient condition of the source fails the call. Positive controls on a fixture crate on every run.',
-    technique='effect (mod/ref) analysis + denylist lint over type-checked MIR/HIR; type-fact walk', ref='6/C17'),
+         'S5 transitive field walk: per-instance types own their data; S6 the call graph of the three crates has no cycle, so the stack the calling thread has left cannot decide an outcome; C05.T6 the byte source is consumed only through read_exact into a 1-byte buffer whose byte is always kept, so the result cannot depend on how '
+         'a Read implementation splits the same byte sequence; C15.EK only end of data (io::ErrorKind::UnexpectedEof) ends a picture early - any other transient condition of the source fails the call; C14.H the bits handed out depend on the buffered bytes and the position only. Positive controls on a fixture crate on every run.',
+    technique='effect (mod/ref) analysis + denylist lint over type-checked MIR/HIR; type-fact walk; call-graph SCC', ref='6/C17'),
 }
 
 NOT_YET = 'check not built yet in this revision (planned, see DESIGN.md section 10); not claimed until its rules run'
